@@ -291,7 +291,7 @@ def _esc_attr(s, quote, charrefs):
     return "".join(out)
 
 
-DEFAULT_SPELLING = dict(decl=0, indent=0, quote='"', order=0, empty=0, charrefs=0, tail="\n", seed=0)
+DEFAULT_SPELLING = dict(decl=0, indent=0, quote='"', order=0, empty=0, charrefs=0, tail="\n", attrsep=" ", eq="=", pre_gt="", seed=0)
 
 
 def spellings(rng, n):
@@ -305,6 +305,10 @@ def spellings(rng, n):
             empty=rng.choice([0, 1, 2]),            # <a/> / <a /> / <a></a>
             charrefs=rng.randrange(8),
             tail=rng.choice(["", "\n", "\r\n", " \n"]),
+            # white space inside tags: before each attribute (one attribute per line, tabs, CR LF), around '=', before '>'
+            attrsep=rng.choice([" ", " ", " ", " ", "\n", "\t", "\r\n ", "  ", "\n    "]),
+            eq=rng.choice(["=", "=", "=", " = ", "= "]),
+            pre_gt=rng.choice(["", "", "", " ", "\n", "\t"]),
             seed=rng.randrange(1 << 30),
         ))
     return out
@@ -323,7 +327,7 @@ def write_xml(am, sp=None):
             items.sort()
         elif sp["order"] == 2:
             r.shuffle(items)
-        return "".join(f" {k}={q}{_esc_attr(v, q, sp['charrefs'])}{q}" for k, v in items)
+        return "".join(f"{sp['attrsep']}{k}{sp['eq']}{q}{_esc_attr(v, q, sp['charrefs'])}{q}" for k, v in items)
 
     def elem(tag, attrs, text, children, level):
         nl = ""
@@ -333,12 +337,13 @@ def write_xml(am, sp=None):
         elif sp["indent"] == 2:
             nl, ind = "\n", "\t"
         head = f"<{tag}{attrs_text(attrs)}"
+        pg = sp["pre_gt"]
         if not children and (text is None or text == ""):
             if sp["empty"] == 0:
-                return head + "/>"
+                return head + pg + "/>"
             if sp["empty"] == 1:
                 return head + " />"
-            return head + f"></{tag}>"
+            return head + pg + f"></{tag}{pg}>"
         body = ""
         if text is not None:
             t = _esc_text(text, sp["charrefs"], r)
@@ -351,7 +356,7 @@ def write_xml(am, sp=None):
             for c in children:
                 body += nl + ind * (level + 1) + elem(c["tag"], c["attrs"], c["text"], None, level + 1)
             body += nl + ind * level
-        return head + ">" + body + f"</{tag}>"
+        return head + pg + ">" + body + f"</{tag}{pg}>"
 
     decl = ["", '<?xml version="1.0"?>\n', '<?xml version="1.0" encoding="UTF-8"?>\n', "<?xml version='1.0'?>"][sp["decl"]]
     return decl + elem(am["tag"], am["attrs"], am["text"], am.get("children"), 0) + sp["tail"]
